@@ -74,10 +74,14 @@ Record sampler := { s_names : list string;
 Record pers := { p_bn : bool;     (* some BatchNorm layer tracks running statistics: a training-mode forward writes them *)
                  p_net : list (string * Z); p_masks : list pmask; p_layers : list player; p_samplers : list sampler }.
 
-Record trans := { training : bool; disc : bool; hard : bool; smp : skind; sn_temp : Q;
+Record trans := { training : bool; disc : bool; hard : bool;
+                  gum : bool; nos : bool;      (* MPSBaseQtz.gumbel_softmax / disable_sampling (SuperNet: constructor argument of the block / never) *)
+                  sn_temp : Q;
                   sn_thetas : list tnf;                         (* SuperNetCombiner.theta_alpha: not a buffer *)
                   ranges : option (list (string * Z)) }.    (* MinMaxWeight.ch_min/ch_max, QuantizerBias._scale: plain attributes, uninitialised
                        after construction, recomputed from the weights by every forward pass (of the wrapper and of the exported net) *)
+(* the method bound to sample_alpha: qtz.py update_softmax_options re-derives it from the two flags on every call *)
+Definition smp (t : trans) : skind := if nos t then NoSamp else if gum t then Gs else Sm.
 Record state := { meth : method; pe : pers; tr : trans }.
 
 (* ---------------------------------------------------------------- state_dict keys *)
@@ -125,7 +129,8 @@ Definition load (sd : pers) (f : state) : option state :=
 
 (* ---------------------------------------------------------------- constructor *)
 Record cfg := { c_meth : method; c_pers : pers;      (* the seed network after conversion: names, initial values *)
-                c_training : bool; c_disc : bool; c_hard : bool; c_smp : skind; c_temp : Q }.
+                c_training : bool; c_disc : bool; c_hard : bool; c_gum : bool; c_nos : bool; c_temp : Q }.
+Definition c_smp (c : cfg) : skind := if c_nos c then NoSamp else if c_gum c then Gs else Sm.
 Definition fresh (c : cfg) : state :=
   {| meth := c_meth c;
      pe := {| p_bn := p_bn (c_pers c); p_net := p_net (c_pers c); p_masks := p_masks (c_pers c); p_layers := p_layers (c_pers c);
@@ -135,7 +140,7 @@ Definition fresh (c : cfg) : state :=
                                                 samples once in its constructor: soft-max, temperature 1, module in train mode *)
                                              s_theta := match c_meth c with MPS => soft_nf 1 (s_alpha s) | _ => s_theta s end |})
                                   (p_samplers (c_pers c)) |};
-     tr := {| training := c_training c; disc := c_disc c; hard := c_hard c; smp := c_smp c; sn_temp := c_temp c;
+     tr := {| training := c_training c; disc := c_disc c; hard := c_hard c; gum := c_gum c; nos := c_nos c; sn_temp := c_temp c;
               sn_thetas := map (fun s => map (fun _ => CInit) (s_alpha s)) (p_samplers (c_pers c)); ranges := None |} |}.
 
 (* ---------------------------------------------------------------- operations *)
@@ -169,7 +174,7 @@ Definition set_theta (s : sampler) (th : tnf) : sampler :=
 Definition with_tr (s : state) (t : trans) : state := {| meth := meth s; pe := pe s; tr := t |}.
 Definition with_pe (s : state) (p : pers) : state := {| meth := meth s; pe := p; tr := tr s |}.
 Definition set_mode (b : bool) (s : state) : state :=
-  with_tr s {| training := b; disc := disc (tr s); hard := hard (tr s); smp := smp (tr s); sn_temp := sn_temp (tr s);
+  with_tr s {| training := b; disc := disc (tr s); hard := hard (tr s); gum := gum (tr s); nos := nos (tr s); sn_temp := sn_temp (tr s);
                sn_thetas := sn_thetas (tr s); ranges := ranges (tr s) |}.
 
 Definition mps_resample (k : skind) (trn h : bool) (noise : nat) (q : sampler) : sampler :=
@@ -186,10 +191,10 @@ Definition forward (noise : nat) (s : state) : state :=
       let ss := map (mps_resample (smp t) (training t) (hard t) noise) (p_samplers p) in
       {| meth := MPS;
          pe := {| p_bn := p_bn p; p_net := p_net p; p_masks := p_masks p; p_layers := p_layers p; p_samplers := ss |};
-         tr := {| training := training t; disc := disc t; hard := hard t; smp := smp t; sn_temp := sn_temp t;
+         tr := {| training := training t; disc := disc t; hard := hard t; gum := gum t; nos := nos t; sn_temp := sn_temp t;
                   sn_thetas := sn_thetas t; ranges := Some (p_net p) |} |}
   | SN =>
-      with_tr s {| training := training t; disc := disc t; hard := hard t; smp := smp t; sn_temp := sn_temp t;
+      with_tr s {| training := training t; disc := disc t; hard := hard t; gum := gum t; nos := nos t; sn_temp := sn_temp t;
                    sn_thetas := map (fun q => sn_sample (smp t) (training t) (hard t) (sn_temp t) noise (s_alpha q)) (p_samplers p);
                    ranges := ranges t |}
   end.
@@ -207,22 +212,22 @@ Definition step (s : state) (o : op) : state :=
                    p_samplers := zip_with set_alpha (fun q => q) (p_samplers p) al' |}
   | OSetDisc b =>
       match meth s with
-      | PIT => with_tr s {| training := training t; disc := b; hard := hard t; smp := smp t; sn_temp := sn_temp t;
+      | PIT => with_tr s {| training := training t; disc := b; hard := hard t; gum := gum t; nos := nos t; sn_temp := sn_temp t;
                             sn_thetas := sn_thetas t; ranges := ranges t |}
       | _ => s
       end
   | OUpdate ot oh og od =>
       match meth s with
       | PIT => s
-      | MPS =>     (* qtz.py update_softmax_options: the sampler is re-chosen from the arguments of THIS call *)
+      | MPS =>     (* qtz.py update_softmax_options: options that are not given keep their value *)
           {| meth := MPS;
              pe := {| p_bn := p_bn p; p_net := p_net p; p_masks := p_masks p; p_layers := p_layers p;
                       p_samplers := match ot with Some x => map (set_temp x) (p_samplers p) | None => p_samplers p end |};
              tr := {| training := training t; disc := disc t; hard := upd oh (hard t);
-                      smp := if is_true od then NoSamp else if is_true og then Gs else Sm;
+                      gum := upd og (gum t); nos := upd od (nos t);
                       sn_temp := sn_temp t; sn_thetas := sn_thetas t; ranges := ranges t |} |}
       | SN =>      (* supernet.py update_softmax_options(temperature, hard) *)
-          with_tr s {| training := training t; disc := disc t; hard := upd oh (hard t); smp := smp t;
+          with_tr s {| training := training t; disc := disc t; hard := upd oh (hard t); gum := gum t; nos := nos t;
                        sn_temp := upd ot (sn_temp t); sn_thetas := sn_thetas t; ranges := ranges t |}
       end
   | OTrain => set_mode true s
@@ -276,6 +281,8 @@ Definition obs (s : state) : observation :=
   {| o_out := (training t, thetas s);
      o_cost := (thetas s, match meth s with PIT => map (layer_eff (disc t) (pe s)) (p_layers (pe s)) | _ => [] end);
      o_summary := match meth s with
+                  (* SuperNetCombiner.summary() re-samples (or, once it stops doing so, reads what the forward pass left):
+                     in both cases a function of the logits and the same options *)
                   | SN => map (fun q => sn_sample (smp t) (training t) (hard t) (sn_temp t) 0 (s_alpha q)) (p_samplers (pe s))
                   | _ => [] end;
      o_export := if p_bn (pe s) && training t then thetas s else [] |}.
@@ -283,7 +290,7 @@ Definition observe (s : state) : pers * observation := (pe s, obs s).
 
 (* transient options that the constructor sets from its arguments *)
 Definition opts_match (s : state) (c : cfg) : Prop :=
-  disc (tr s) = c_disc c /\ hard (tr s) = c_hard c /\ smp (tr s) = c_smp c /\ sn_temp (tr s) = c_temp c.
+  disc (tr s) = c_disc c /\ hard (tr s) = c_hard c /\ gum (tr s) = c_gum c /\ nos (tr s) = c_nos c /\ sn_temp (tr s) = c_temp c.
 
 (* the resume protocol: build the wrapper again, load strictly, put it in the mode of the interrupted run, forward *)
 Definition resume (noise : nat) (c : cfg) (s : state) : option state :=
